@@ -1,0 +1,8 @@
+//go:build verif
+
+package tensor
+
+import "github.com/sahandsafizadeh/qeep/tensor/internal/gradtrack"
+
+// VerifRuleCount reports how many chain gradient functions have been evaluated so far
+func VerifRuleCount() int64 { return gradtrack.VerifRuleCount() }
